@@ -102,6 +102,26 @@ CHECKS = {
         "out": ["byte-level input (C02)", "real TLS", "ServerBuilder.buildAuthenticate adapters"],
         "assumptions": ["Authenticate returns a non-nil result when its error is nil; callbacks return normally"],
     },
+    "C06": {
+        "level_text": "(1) From a channel in an arbitrary state (symbolic state member, client/server, transport up/down) each of SendMessage, "
+                      "SendNotification, SendRequestCommand, SendResponseCommand, ProcessCommand and the dispatch loop is executed symbolically: outside "
+                      "'established' it returns an error, the transport's Send/Receive are never entered and no pending-command entry stays behind; when "
+                      "established it writes exactly the given envelope once. (2) In both roles' real handshakes against an arbitrary scripted peer, a "
+                      "data envelope injected before establishment aborts the handshake with every inbound stream empty, only session envelopes are "
+                      "written before establishment, and the receiver goroutine (the only producer of the inbound streams) does not exist before it.",
+        "level_note": "Trusted: SSA->SMT executor, cooperative scheduler, z3. Bounds: handshake script depth 3 / 5. The window between the state check and "
+                      "transport.Send when another goroutine ends the session concurrently is outside the claim (instruction-level schedule).",
+        "runs": [
+            {"harness": "HarnessC06Send", "grid": {"op": [0, 1, 2, 3, 4, 5]}, "reach": ["c06:not-established"]},
+            {"harness": "HarnessC06Inject", "grid": {"role": [0, 1]}, "params": {"depth": 3, "enccfg": 2, "transport": 0},
+             "reach": ["c06:data-envelope-before-establishment"], "tier": "quick"},
+            {"harness": "HarnessC06Inject", "grid": {"role": [0, 1], "enccfg": [0, 2], "transport": [0, 2]}, "params": {"depth": 5},
+             "reach": ["c06:data-envelope-before-establishment"], "tier": "thorough"},
+        ],
+        "bounds": {"quick": {"script_depth": 3}, "thorough": {"script_depth": 5}},
+        "out": ["the window between the state check and transport.Send under a concurrent terminal transition"],
+        "assumptions": [],
+    },
     "C07": {
         "level_text": "Same symbolic server handshake as C03; the emitted session envelopes are checked against the protocol grammar (negotiating options, "
                       "confirmation, authenticating options, round trips, established, at most one terminal), single session id, server node as sender, "
@@ -183,6 +203,25 @@ CHECKS = {
         "bounds": {"quick": {"script_depth": 4}, "thorough": {"script_depth": 5}},
         "out": ["real transports' own goroutines", "the client-side half of the statement beyond 'the server closed the connection'"],
         "assumptions": ["callbacks return normally"],
+    },
+    "C20": {
+        "level_text": "EnvelopeMux.handleMessage/Notification/RequestCommand/ResponseCommand and the listen loop are executed symbolically over symbolic "
+                      "handler tables (per handler: predicate missing or present with a symbolic verdict, handler result nil or error) and pre-loaded inbound "
+                      "streams of arbitrary kinds: the invoked handlers are exactly the earliest-registered one whose predicate is missing or accepts, once, "
+                      "with the envelope pointer as received and the session as sender; no match invokes nothing and the loop goes on; a handler error stops "
+                      "the loop, and Server.handleChannel then finishes the session.",
+        "level_note": "Trusted: SSA->SMT executor, cooperative scheduler, z3. Bounds: 3 / 4 handlers per kind, 2 / 3 inbound envelopes.",
+        "runs": [
+            {"harness": "HarnessC20Handle", "grid": {"kind": [0, 1, 2, 3]}, "params": {"handlers": 3}, "reach": ["c20:handled"], "tier": "quick"},
+            {"harness": "HarnessC20Handle", "grid": {"kind": [0, 1, 2, 3]}, "params": {"handlers": 4}, "reach": ["c20:handled"], "tier": "thorough"},
+            {"harness": "HarnessC20Listen", "params": {"handlers": 2, "envelopes": 2}, "reach": ["c20:listen-returned"], "tier": "quick"},
+            {"harness": "HarnessC20Listen", "params": {"handlers": 3, "envelopes": 3}, "reach": ["c20:listen-returned"], "tier": "thorough"},
+            {"harness": "HarnessC14Serve", "params": {"enccfg": 2, "transport": 2, "depth": 4, "schemecfg": 0, "compcfg": 0},
+             "reach": ["c20:handler-failed-while-serving"]},
+        ],
+        "bounds": {"quick": {"handlers": 3, "envelopes": 2}, "thorough": {"handlers": 4, "envelopes": 3}},
+        "out": ["nothing material beyond the bounds"],
+        "assumptions": ["predicates are pure (their verdict for a handler is fixed per run)"],
     },
     "C11": {
         "level_text": "Every path of the real reply builders (SuccessResponse, SuccessResponseWithResource, FailureResponse, Message.Notification, "
